@@ -32,6 +32,31 @@ CHECKS["C01"] = dict(
          "packet-id wrap.",
     technique="explicit-state BFS over real executions against a FIFO reference model")
 
+CHECKS["C02"] = dict(
+    level="model_checking", design="DESIGN.md §6 C02",
+    text="All placements (depth 7/1 quick; 10/1 and 8/2 thorough) of write faults at each of the three chunks of a frame, "
+         "peer resets, refusals, accepts and connections whose first write fails, against sends with each retry policy, "
+         "with the clock advanced to the timed-automaton corners (e-eps, e, e+eps) of every pending expiry; monitor: on-wire "
+         "attempts <= 1+retries, every attempt strictly before accept+lifetime, the command that failed once is the first "
+         "frame on the next connection, and after the network behaves nothing owed is missing.",
+    technique="explicit-state BFS over real executions with fault injection and clock-region corners")
+CHECKS["C15"] = dict(
+    level="model_checking", design="DESIGN.md §6 C15",
+    text="shutdown() injected at every turn boundary of four backbone histories (handshake + heartbeat + AT4 poll, refused "
+         "connect + back-off, commands pending while down, EOF + reconnect + refresh) of the real AirTouch4/5 objects against "
+         "the simulated console (thorough: additionally free BFS depth 9/1, 7/2); then 1000 s idle on an accepting network and "
+         "a re-init against a different installation. Oracle: after shutdown() returned no connect attempt, no write, no "
+         "connected=True notification, no task or timer left, commands raise NotOpenError, every connection closed by the "
+         "client, re-init rebuilds the model from scratch.",
+    technique="explicit-state BFS over real executions; shutdown as the only deviation, at every turn boundary")
+CHECKS["C16"] = dict(
+    level="model_checking", design="DESIGN.md §6 C16",
+    text="All histories (up to 12 sends with lifetimes 1 s/30 s, clock advanced to the corners of pending expiries, final "
+         "accept) on a socket whose link is down, compared after every step with a reference list: overflow iff ten "
+         "unexpired entries are held, held entries untouched by an overflow, exactly the unexpired held ones transmitted in "
+         "order after connecting; send before open / after close raises NotOpenError and holds nothing.",
+    technique="explicit-state BFS over operation histories against a reference list model")
+
 NOT_YET = {}
 
 
